@@ -280,6 +280,11 @@ def read_cmdlog(path):
         for line in open(path):
             parts = line.rstrip("\n").split(" ", 3)
             if len(parts) == 4:
+                if parts[0] == "C":
+                    import base64
+                    k, _, b = parts[3].rpartition(" ")
+                    rows.append(dict(tag="C", ts=0.0, pid=parts[2], key=k, cmdline=base64.b64decode(b).decode(errors="replace")))
+                    continue
                 rows.append(dict(tag=parts[0], ts=float(parts[1] or 0), pid=parts[2], key=parts[3]))
     except FileNotFoundError:
         pass
@@ -362,6 +367,10 @@ def normalize_flow(events, inst, end):
     g2task = {}
     finished = set()
     relays = {p["name"]: p["params"][0] for p in inst["procs"] if p["kind"] == "pcomb"}
+    passes = {p["name"] for p in inst["procs"] if p["kind"] == "maptotags"}
+    for m in passes:
+        emit_outs.add(m + ".out")
+    pass_seen = {m: set() for m in passes}
     for r, port in relays.items():
         emit_outs.add("%s.%s>" % (r, port))
     relay_in = {"%s.%s" % (r, port): r for r, port in relays.items()}
@@ -388,6 +397,11 @@ def normalize_flow(events, inst, end):
             frm = feedname(ev["from"], ev["to"])
             if e.endswith(".begin") and ev["to"] in relay_in:
                 relay_got[relay_in[ev["to"]]].append(item)
+            pproc = frm.rsplit(".", 1)[0]
+            if pproc in passes and e.endswith(".begin") and item not in pass_seen[pproc]:
+                # pass-through component without hooks: it received the item it now forwards
+                pass_seen[pproc].add(item)
+                out.append(dict(e="relay.recv", proc=pproc, port=pproc + ".in", closed=False, item=item))
             rproc = frm[:-1].rsplit(".", 1)[0] if frm.endswith(">") else None
             if rproc in relays and rproc not in relay_started:
                 # the component has no hooks: its receives are reconstructed (single upstream, channel order = send order)
@@ -406,6 +420,8 @@ def normalize_flow(events, inst, end):
                 for it in relay_got[rproc]:
                     out.append(dict(e="relay.recv", proc=rproc, port=port, closed=False, item=it))
                 out.append(dict(e="relay.recv", proc=rproc, port=port, closed=True, item=""))
+            if frm in emit_outs and frm not in finished and frm.rsplit(".", 1)[0] in passes:
+                out.append(dict(e="relay.recv", proc=frm.rsplit(".", 1)[0], port=frm.rsplit(".", 1)[0] + ".in", closed=True, item=""))
             if frm in emit_outs and frm not in finished:
                 finished.add(frm)
                 out.append(dict(e="em.finish", **{"from": frm}))
